@@ -36,11 +36,13 @@ class Registry:
                 return c
         return None
 
-    def lookup_method(self, cname, attr):
-        for (f, fn), c in self.by_key.items():
-            if fn == cname + "." + attr:
-                return c
-        return None
+    def lookup_method(self, cname, attr, ty=None):
+        cands = [c for (f, fn), c in self.by_key.items() if c.func == cname + "." + attr]
+        if ty is not None:
+            for c in cands:
+                if list(c.params.values())[0] == ty:
+                    return c
+        return cands[0] if cands else None
 
     def any_method(self, attr):
         for (f, fn), c in self.by_key.items():
